@@ -18,6 +18,24 @@ CHECKS = {
  "C16": dict(engine="kani", technique="bounded model checking of the compiled code (Kani/CBMC) with the PRNG draw as a solver unknown (hooked), checking the step contract of Algorithm R",
     text="capacities 0-2, three fill/drain cycles with symbolic push counts: yields only this cycle's values, min(n, capacity) of them, sample rate = yielded/pushed, no panic; the draw range requested is exactly count+1 and the replaced slot is the drawn one (uniformity follows by induction)",
     note="uniformity of rand's random_range and the induction are trusted; pushes concurrent with a drain not yet covered", ref="§4 C16"),
+ "C05": dict(engine="mirsmt", technique="SMT (z3 4.8.12, cross-checked by cvc5 / z3 5.1.0) over a partial-order encoding generated from the MIR of AtomicBucket::{push,data_with,clear_with} and Block::{push,len,is_quiesced,data}; counterexample schedules replayed natively (real threads, auto-instrumented scratch copy, block size 2)",
+    text="for every interleaving of small sets of pushers / clearers / snapshot readers (block size 2, so hand-over is reachable): no value lost outside the two recorded loss mechanisms, none duplicated, none fabricated or read before written, no data race on slots, no panic; the two known losses (K3, K4) are re-derived by the solver, replayed natively and reported as KNOWN-FINDING",
+    note="block size 2; crossbeam-epoch trusted; quiescence waits as awaits; values are tags without destructors; >3 pushes / >2 readers outside the bound", ref="§4 C05"),
+ "C10": dict(engine="kani+mirsmt", technique="Kani/CBMC over sequential update/flush histories + SMT partial-order encoding (from MIR) of update || flush schedules on the DogStatsD AtomicCounter/AtomicGauge; native schedule replay",
+    text="sequential: each delta = what was added since the previous flush, update counts, conservation, idle flush = (0,0); schedules: deltas of all flushes add up to the increments under every interleaving, absolute-only deltas add up to last-first, gauge flush sends a value the gauge had; the two known races (K6 split delta/update count, K7 wrapped delta on first absolute) are re-derived, replayed natively and reported as KNOWN-FINDING",
+    note="State::flush idle logic, timestamps, framing and socket I/O not yet covered; one updater and one flusher thread", ref="§4 C10"),
+ "C12": dict(engine="mirsmt+kani", technique="SMT over a sequential encoding generated from the MIR of Recency::should_store_{counter,gauge,histogram} with an abstract map/clock/registry: one step from an arbitrary state (decision table) and a two-kind history; Kani harness for Generational; counterexamples replayed natively with a mock clock",
+    text="from every entry state, generation, instant, timeout, mask and delete outcome: delete is attempted exactly when the entry has the same generation and was seen more than the timeout ago and the kind is covered; bookkeeping afterwards as the rule requires; other kinds under the same key untouched; every update bumps the generation",
+    note="std HashMap as a finite association (trusted), quanta clock arbitrary; Prometheus-side removal of expired distributions not covered", ref="§4 C12"),
+ "C13": dict(engine="kani", technique="bounded model checking of the compiled code (Kani/CBMC) with recording recorder doubles over symbolic names, labels, units and operations",
+    text="prefix layer forwards '<prefix>.<name>' with everything else unchanged; fanout reaches every recorder and every inner handle exactly once with the same value; Stack composes in push order",
+    note="filter and router layers not covered (third-party automaton/trie out of reach of the SAT back end); 1-byte strings", ref="§4 C13"),
+ "C15": dict(engine="kani", technique="bounded model checking of the compiled code (Kani/CBMC) over symbolic ascending f64 bounds and f64 samples of every class",
+    text="bucket i counts exactly the samples <= bound i for record and record_many alike, counts monotone across bounds and over time, count = number of samples, NaN handled identically on both paths",
+    note="<=3 bounds, <=3 samples; matcher precedence and rolling summary window not covered yet; DDSketch accuracy not applicable", ref="§4 C15"),
+ "C20": dict(engine="mirsmt+kani", technique="SMT partial-order encoding generated from the MIR of WeakRecorder::* and RecoveryHandle::into_inner over a counter model of Arc/Weak; Kani harness for the failed-install path; native schedule replay",
+    text="for every interleaving of 1-2 emitting threads with into_inner / handle drop: no call is inside the recorder when it is recovered or finalised, none enters afterwards, recorder state intact during calls, original recorder returned, dropped exactly once, live until recovered, no panic",
+    note="std Arc/Weak trusted (modelled as strong counter); recorder methods as enter/use/exit", ref="§4 C20"),
 }
 NA = {}
 ids = [json.loads(l)["id"] for l in open(os.path.join(V, "properties.jsonl"))]
